@@ -32,6 +32,13 @@
 //	C17-render        (render.go) DocumentError rendering: exhaustive small files and random long files against
 //	    an independent reference of line number, shown source text and caret; each file also with ONE error value
 //	    moved through its positions (forwards, backwards, random jumps) and rendered after every SetIndex.
+//	C17-facade        (facade.go) every error the streams above obtain (validation errors, JSON / schema / enum /
+//	    regex parsing errors, check errors inside added types) and every rendered value of the render stream is ALSO
+//	    handed through the SDK facade kit.ConvertError(file, err), once per caller file: the file the error belongs
+//	    to, every other file of the run (root schema / added types / document) and companion files under the same,
+//	    the empty or another name whose text is shorter than the position or longer with other line breaks. The
+//	    result's Filename / Position / Message / ErrCode / IncorrectUserType and its rendering (Error, Line,
+//	    SourceSubString) must be those of the error itself - the error's own file, never the caller's - without panic.
 //
 // The document / schema / rule files are created under several file names including the empty one in every stream.
 //
@@ -63,7 +70,9 @@ func Run(args []string) {
 		"a second naming (all / root / type names empty, one shared name) through Check / Validate / Example; lex: one lexical error inside a token "+
 		"(first / middle / last byte; strings, numbers, literals, shortcuts, rule names; all annotation spellings) of an accepted schema / enum / JSON / regex text, "+
 		"oracle by construction + Lean scanner models / encoding/json, and random one-byte edits vs the Lean scanner model; render: all files of <= 6 (quick) / 7 (thorough) bytes over "+
-		"{a,space,tab,LF,CR} x all positions + random files up to 600 bytes with lines around and beyond 200 bytes, fresh error values and one re-used value walking through the file; file names incl. the empty one everywhere. "+
+		"{a,space,tab,LF,CR} x all positions + random files up to 600 bytes with lines around and beyond 200 bytes, fresh error values and one re-used value walking through the file; file names incl. the empty one everywhere; "+
+		"facade: every error of every stream also through kit.ConvertError(file, err) for the error's own file, every other file of the run and companion files "+
+		"(same / empty / other name, text shorter than the position or longer), result = the error itself (file, position, code, message, user type, rendering). "+
 		"nontrivial = every planted case; a render file of >= 2 bytes")
 	only := ""
 	if len(args) > 0 {
